@@ -25,8 +25,8 @@ def gen_exec_cases(tier, rng, want):
             if quick and (k + stop) % 3 != 0:
                 continue
             cases.append(A.ExecCase(tc.d, 0, tc.H, tc.B, tc.mode, tc.nums, stop, [63]))
-    nrand = 220 if quick else 12000
-    maxN = 200 if quick else 2000
+    nrand = 220 if quick else 4000
+    maxN = 200 if quick else 1200
     Hmax = {1: 8, 2: 6, 3: 5, 4: 4} if quick else {1: 10, 2: 7, 3: 6, 4: 4}
     for tc in T.gen_random(rng, nrand, maxN, Hmax=Hmax):
         stop = rng.choice([2, 2, 2, 0, 1, 3, tc.H - 1, tc.H, -1])
@@ -52,7 +52,7 @@ def run_algo_property(pid, prop_file, tier, seed, want, level="proof"):
             hc = 0
         groups = []   # C08 / C12 families: lists of case positions that must agree with each other
         if "c08" in want:
-            nfam = 40 if tier == "quick" else 1500
+            nfam = 40 if tier == "quick" else 350
             for tc in T.gen_random(rng, nfam, 120 if tier == "quick" else 800, Hmax={1: 7, 2: 5, 3: 5, 4: 3}):
                 nl = len(set(tc.leaf_indices()))
                 Bs = sorted(set([1, 2, 3, 5, 7, max(1, nl // 2), nl, nl + 1, 10000000]))
@@ -66,7 +66,7 @@ def run_algo_property(pid, prop_file, tier, seed, want, level="proof"):
                             fam.append(len(cases)); cases.append(A.ExecCase(tc.d, 0, tc.H, B, mode, tc.nums, 2, [63], rb=True))
                 groups.append(("grouping", fam))
         if "c12" in want:
-            nfam = 30 if tier == "quick" else 1000
+            nfam = 30 if tier == "quick" else 300
             for tc in T.gen_random(rng, nfam, 100 if tier == "quick" else 500, Hmax={1: 7, 2: 5, 3: 5, 4: 3}):
                 stop = rng.choice([2, 2, 0, 1, 3])
                 fam = []
@@ -110,25 +110,33 @@ def run_algo_property(pid, prop_file, tier, seed, want, level="proof"):
         def nontrivial(c, line):
             return " M2L " in line and " M2M " in line and line.count("[") > 6
 
-        impl, model = vlib.differential(rep, binary, texts, sdir, "exec", canon=canon, oracle=oracle, nontrivial=nontrivial, model_cases=[A.exec_model_text(x) for x in texts],
-                                        clause=lambda c: "%s:d%s" % (c.split()[0], c.split()[1]))
-        # exact batched sequence agreement (diagnostic only)
-        nseq = 0
-        for i, m in zip(impl, model):
-            if i.startswith("ABORT"): continue
-            ti = [A.canon_call(A.parse_call(x)) for x in A.split_trace(i.split(" || ")[1])] if " || " in i else []
-            tm = [A.canon_call(A.parse_call(x)) for x in A.split_trace(m.split(" || ")[1])] if " || " in m else []
-            if ti == tm: nseq += 1
-        rep.count("exact_batched_sequence_agreement", nseq)
+        famof = {}
+        for gi, (kind, fam) in enumerate(groups):
+            for k in fam: famof[k] = gi
+        sigs = {}
+        seqstat = [0]
+
+        def post(k, c, i, m):
+            # exact batched sequence agreement (diagnostic only)
+            if not i.startswith("ABORT"):
+                ti = [A.canon_call(A.parse_call(x)) for x in A.split_trace(i.split(" || ")[1])] if " || " in i else []
+                tm = [A.canon_call(A.parse_call(x)) for x in A.split_trace(m.split(" || ")[1])] if " || " in m else []
+                if ti == tm: seqstat[0] += 1
+            if k in famof and not i.startswith("ABORT"):
+                dump, trace, R, C = A.split_exec_output(i)
+                calls = [A.parse_call(x) for x in trace]
+                sig = (sorted(A.elementary(calls).items()), sorted(R.items()), sorted(C.items()))
+                sigs[k] = tuple(hashlib.sha256(repr(x).encode()).hexdigest() for x in sig)
+
+        vlib.differential(rep, binary, texts, sdir, "exec", canon=canon, oracle=oracle, nontrivial=nontrivial, model_cases=[A.exec_model_text(x) for x in texts],
+                          clause=lambda c: "%s:d%s" % (c.split()[0], c.split()[1]), post=post)
+        rep.count("exact_batched_sequence_agreement", seqstat[0])
         # families: every member must agree with the first one (implementation against itself)
         for kind, fam in groups:
             ref = None
             for k in fam:
-                line = impl[k]
-                if line.startswith("ABORT"): continue
-                dump, trace, R, C = A.split_exec_output(line)
-                calls = [A.parse_call(x) for x in trace]
-                sig = (sorted(A.elementary(calls).items()), sorted(R.items()), sorted(C.items()))
+                if k not in sigs: continue
+                sig = sigs[k]
                 if ref is None:
                     ref = (k, sig)
                 elif sig != ref[1]:
